@@ -320,18 +320,19 @@ func execProxy(pf *grpcadapter.ProxyForwarder, rt *fake.Router, tgt *fake.Target
 	}
 	defer cc.Close()
 
-	ctx, cancel := context.WithTimeout(context.Background(), 5*time.Second)
+	// guard against hangs without giving the call a deadline of our own (a deadline would reach the target)
+	ctx, cancel := context.WithCancel(context.Background())
 	defer cancel()
+	guard := time.AfterFunc(5*time.Second, cancel)
+	defer guard.Stop()
 	md := metadata.MD{}
-	clientTimeout := false
 	for k, vs := range sent {
 		if strings.EqualFold(k, "grpc-timeout") {
 			// grpc-go sends grpc-timeout from the context deadline only
 			if d, ok := grpcadapter.VerifDecodeTimeout(vs[0]); ok {
 				var c2 context.CancelFunc
-				ctx, c2 = context.WithTimeout(context.Background(), d)
+				ctx, c2 = context.WithTimeout(ctx, d)
 				defer c2()
-				clientTimeout = true
 			}
 			continue
 		}
@@ -369,9 +370,6 @@ func execProxy(pf *grpcadapter.ProxyForwarder, rt *fake.Router, tgt *fake.Target
 	n, out, dl := tgt.Snapshot()
 	if n == 0 {
 		return "fwd=0"
-	}
-	if !clientTimeout {
-		dl = "none" // the 5 s guard of the harness client
 	}
 	_, _, _, seen := rt.Calls()
 	return fmt.Sprintf("fwd=1 seen=%s out=%s dl=%s ch=%s ct=%s", fake.ShowMD(seen), fake.ShowMD(out), dl, fake.ShowMD(chm), fake.ShowMD(map[string][]string(ct)))
